@@ -85,8 +85,16 @@ def jd_val(vc):
     vc.fmode(True)
     y, m, d = _ymd(vc)
     h, mi, s = _hms(vc)
-    jd = _getjd(vc, y, m, d, h, mi, s)
     n = 3600 * h + 60 * mi + s
+    if vc.symbolic:
+        # staged: the day fraction is within 2e-16 of n/86400 (same rounding constant as in the body), then the sum
+        frac = vc.as_code(lambda: (s + mi * 60 + h * 3600) / 86400)
+        nr = sym.SNum(sym._real(sym.term(n)))
+        vc.cut("O-C05-jd-val", sym.SBool(z3.And(frac.t - nr.t / 86400 <= z3.Q(2, 10 ** 16), nr.t / 86400 - frac.t <= z3.Q(2, 10 ** 16), frac.t >= 0, frac.t < 1)))
+    if vc.symbolic:
+        # staged: the integer part (the same terms as in the full call) is the Gregorian day count: O-C05-jd-int
+        vc.cut("O-C05-jd-val", _getjd(vc, y, m, d, 0, 0, 0) == day_number(vc, y, m, d) + JD_1900_12_31)
+    jd = _getjd(vc, y, m, d, h, mi, s)
     exact = day_number(vc, y, m, d) + JD_1900_12_31 + n / 86400 if not vc.symbolic else \
         sym.SNum(sym._real(sym.term(day_number(vc, y, m, d))) + z3.Q(4830769, 2) + sym._real(sym.term(n)) / 86400)
     vc.ensure("O-C05-jd-val", abs(jd - exact) <= float(EPS_JD) if not vc.symbolic else sym.SBool(z3.And(jd.t - exact.t <= z3.Q(1, 10 ** 9), exact.t - jd.t <= z3.Q(1, 10 ** 9))))
